@@ -329,6 +329,26 @@ def searchListSite (rx : Str → Str → Option Bool) (inv : Bool) (m : Method) 
   if !cs.isEmpty && cs.all (· = .null) then ([], some (.crash .typeError))
   else searchScan rx inv m term cs 0
 
+/-- The list site with a NAMED attribute (`[attr<op>term]` over a list of records).  Per element the
+code computes `matches` afresh: `search_matches(method, term, ele[attr])` when the record has the
+attribute, the comparison with the first node of the descendant search when `attr` is a path that
+leads to one, and `False` when the element has no value there (no such key, a null or scalar
+element, an empty record); then the same yield test.  A candidate is therefore `some value` or
+`none` (the record has no value at the attribute): the answer for an element never depends on the
+element before it. -/
+def searchAttrScan (rx : Str → Str → Option Bool) (inv : Bool) (m : Method) (term : Str) :
+    List (Option Scalar) → Nat → List Nat × Option Err
+  | [], _ => ([], none)
+  | none :: cs, i =>
+    let (r, e) := searchAttrScan rx inv m term cs (i + 1)
+    (if yieldIf inv false then i :: r else r, e)
+  | some c :: cs, i =>
+    match searchMatches rx m c term with
+    | .error e => ([], some e)
+    | .ok b =>
+      let (r, e) := searchAttrScan rx inv m term cs (i + 1)
+      (if yieldIf inv b then i :: r else r, e)
+
 /-! ## The specification of C12, written from the property statement
 
 "Equality is numeric when both sides are numbers of the same kind and textual otherwise,
